@@ -831,6 +831,9 @@ class Interp:
                 if isinstance(other, Term) and other.op in ('hex', 'decode', 'encode', 'cat', 'sha256', 'sha512', 'to_bytes', 'from_bytes', 'fstr', 'tobytes',
                                                             'crc', 'bslice', 'fromhex', 'reversed_bytes', 'int', 'strfmt', 'join'):
                     return K(t is ast.IsNot)        # results of str/bytes/int operations are never None
+                if isinstance(other, Term) and (other.op in ('+', '-', '*', '//', '%', '<<', '>>', '&', '|', '^', '**', 'mod2', 'mod2x', 'unaryUSub', 'unaryInvert',
+                                                             'unaryNot', 'len', 'count', 'bool', 'bit', 'int2', 'abs', 'range') or getattr(other, 'bounds', None) is not None):
+                    return K(t is ast.IsNot)        # results of arithmetic are numbers
                 if isinstance(other, Term) and (other.op.startswith('ext:') or other.op.startswith('.') or other.op.startswith('builtin:')):
                     return K(t is ast.IsNot)        # opaque results of library calls / methods of library values: a value, not None
                 return Cond(('isnone', repr(self.vkey(other))), t is ast.Is, f'{vrepr(other)[:40]} is None')
